@@ -255,6 +255,16 @@ theorem recursive_delete_leaks_witness :
     let r := step s (.delete ["a"] true false true)
     r.2.d = [] ∧ r.1.ents = [] ∧ kvGet r.1 1 = none ∧ (find s ["c", "a"]).map (·.chunks) = some [1] := by decide
 
+/-- rename/deletes-chunk-of-copy-that-lost-its-link: /a/b and /b/c are names of identity 1 (chunk 1); renaming /a into /b
+    moves /a/b to /b/b as a plain copy and /a/c over /b/c, queues chunk 1 — and /b/b still lists it -/
+theorem rename_merge_deletes_copied_chunk_witness :
+    let s := run {} [.create ["b", "a"] { isDir := false, tag := 1, chunks := [1], hl := 0, cnt := 0 } false,
+                     .create ["b"] { isDir := true, tag := 5, chunks := [], hl := 0, cnt := 0 } false,
+                     .link ["b", "a"] ["c", "b"] 1,
+                     .create ["c", "a"] { isDir := false, tag := 2, chunks := [2], hl := 0, cnt := 0 } false]
+    let r := step s (.rename ["a"] ["b"])
+    r.2.res = Res.ok ∧ r.2.q = [1] ∧ (find r.1 ["b", "b"]).map (fun e => (e.chunks, e.hl)) = some ([1], 0) := by decide
+
 /-! ### tie to the source (T1): the Go functions this model mirrors are the ones it was written against -/
 
 /-- a source edit of any mirrored function changes its hash and breaks this obligation (the model must then be
